@@ -160,7 +160,7 @@ class World:
         FakeDatetime._now = base
         return self.clock
 
-    def snapshot(self, ui, fileset, repo=None, whole_second=False, note=None, path_order=None):
+    def snapshot(self, ui, fileset, repo=None, whole_second=False, note=None, path_order=None, rate_limit=None):
         """fileset: rel path -> bytes (the files under the world's source directory are rewritten to exactly this set).
         → dict(sid, name, uploaded locations, model op)"""
         u = self.users[ui]
@@ -176,7 +176,7 @@ class World:
         if path_order is not None:
             # the same files handed over as explicit path arguments in a caller-chosen order (another enumeration order of one tree)
             paths = [self.src / rel for rel in path_order]
-        res = R.snapshot(repo, paths, note=note)
+        res = R.snapshot(repo, paths, note=note, rate_limit=rate_limit)
         trace = self.backend.trace[before:]
         rec = repo.props.chunker
         stream = [self.cid(c) for c in rec.chunks]
